@@ -162,6 +162,9 @@ func runCheck(id, tier string) int {
 		if j.Pkg == "main" {
 			return cr.run(j, raw, aid)
 		}
+		if strings.HasPrefix(aid, "race@") {
+			return rp.runRace(j, raw)
+		}
 		return rp.run(j, raw)
 	}
 	rr := <-rpc
@@ -324,14 +327,22 @@ func runCheck(id, tier string) int {
 				for try := 0; try < 5 && !confirmed; try++ {
 					cj := *j
 					cj.Entry = j.Confirm
-					out := rp.run(&cj, map[string]string{})
+					if strings.HasPrefix(aid, "race@") {
+						cj.Entry = "VerifRaceStress"
+					}
+					var out *NativeResult
+					if strings.HasPrefix(aid, "race@") {
+						out = rp.runRace(&cj, map[string]string{})
+					} else {
+						out = rp.run(&cj, map[string]string{})
+					}
 					replays++
 					if confirms(out, aid) {
 						confirmed = true
 						if isKnown(aid) == nil && len(vs) > 0 && vs[0].Model != nil {
 							cexPath = writeCex(&cj, aid, vs[0].Model)
 						}
-						fmt.Printf("  %s: reproduced on the real runtime by the amplified scenario %s (try %d)\n", aid, j.Confirm, try+1)
+						fmt.Printf("  %s: reproduced on the real runtime by the amplified scenario %s (try %d): %s\n", aid, cj.Entry, try+1, out.summary())
 					}
 				}
 			}
@@ -499,7 +510,7 @@ func readableModel(m map[string]string) map[string]string {
 
 // scheduleDependent: assertion ids whose counterexamples depend on the goroutine schedule, not only on the input.
 func scheduleDependent(aid string) bool {
-	return strings.Contains(aid, "noleak") || strings.HasPrefix(aid, "deadlock@") || strings.Contains(aid, "ctxerr") || strings.HasPrefix(aid, "C10.same/")
+	return strings.Contains(aid, "noleak") || strings.HasPrefix(aid, "deadlock@") || strings.HasPrefix(aid, "race@") || strings.Contains(aid, "ctxerr") || strings.HasPrefix(aid, "C10.same/")
 }
 
 // evidenceBase: /verif, except in development runs against a scratch copy (VERIF_REPO), whose evidence and
